@@ -12,6 +12,15 @@ The real functions (intersections.mesh_plane / mesh_multiplane / slice_faces_pla
 slice_mesh_plane, Trimesh.section / section_multiplane / slice_plane) are run on the same
 data and every output is compared with the oracle.
 
+Input classes beyond integer meshes x (general | exactly special) planes:
+  near_vertex    plane a few microns from a vertex / an edge (> 10 tol.merge, < tol_path.merge): cut
+                 points closer together than the 1e-5 grid of the 2D path / polygon code, every cap engine;
+  small scale    the same mesh x 2**-17 (features below tol_path.merge), sections only;
+  normal length  the same plane given by its integer normal x 2**e (never unitized by the harness);
+  bool mask      a face subset presented as a boolean mask instead of indices;
+  histories      several calls on ONE mesh object (parallel planes with one normal and a moving origin,
+                 another normal, single-plane operations in between): every call is judged as if fresh.
+
 What is asserted follows the statement:
   soundness      every reported endpoint lies on the plane and on its REPORTED source triangle
                  (always, including planes along edges / coplanar with faces);
@@ -46,7 +55,11 @@ RULE = (
     "opposite edge, along a mesh edge, coplanar with a face from either side), x operation "
     "(mesh_plane with face-order rotations and local_faces, section, mesh_multiplane / "
     "section_multiplane at vertex heights and between, slice_plane / slice_faces_plane without cap "
-    "incl. face subsets and several planes, slice_plane(cap=True) per engine).  A case is one "
+    "incl. face subsets and several planes, slice_plane(cap=True) per engine); plus planes 2.4e-7..8.3e-6 from a "
+    "vertex (all operations, every cap engine), the mesh scaled by 2**-17 (sections), the normal scaled by "
+    "2**-27 / 2**-33 / 2**16, face subsets as boolean masks, and histories of 9-10 calls on one mesh object "
+    "(parallel planes: same normal with the origin moved along / inside the plane, another normal; "
+    "single-plane calls in between).  A case is one "
     "(operation, options, mesh, plane set); distinct = distinct digest of those; non-trivial = the "
     "plane meets the mesh (some vertex on or on both sides of the plane)."
 )
@@ -78,6 +91,10 @@ ASSUMPTIONS = [
     "rational oracle cannot fail for correct code",
     "the generated meshes are closed, consistently outward wound (checked by construction in vmon.gen.mesh)",
     "scipy.spatial.cKDTree (endpoint matching) and numpy are correct",
+    "a Path built from a section whose endpoints can fall into one cell of the tol_path.merge = 1e-5 grid is held to "
+    "2 x tol_path.merge (Hausdorff, both ways) when the section is >= 1e3 cells wide, to TOL when it is <= 10 cells "
+    "wide (the grid is then no tolerance but the size of the object), not judged in between",
+    "a plane normal shorter than 10 x tol.zero is not generated (the library treats it as the zero vector)",
     "a face coplanar with the cutting plane may be attributed to either slice (the statement only fixes "
     "the sum); a face subset passed as face_index may be returned alone or together with the untouched rest",
 ]
@@ -839,6 +856,9 @@ def judge_path(run, ctx, route, path, mp, expected, edge_in_plane, to3d, faces=N
             chord_tol = 2 * PATH_MERGE / ctx.s
             merged = True
         elif zone == "below_path_merge" and ctx.coarse is None:
+            if faces is not None:
+                run.count("path_checks_skipped(sub-grid section of a face subset: judged on the all-faces route)")
+                return
             ctx.coarse = ({"section_size": "below_path_merge"}, "path_not_the_section")
     try:
         _judge_polylines(run, ctx, route, path, mp, expected, verts3, Fsrc, faces, chord_tol, merged)
